@@ -57,6 +57,15 @@ int main(int argc, char **argv)
             run_marked(&p, &alt);
         }
     }
+    {   /* counter low byte around the wrap, under all-00 / all-FF neighbours (carry and borrow chains) */
+        static const uint8_t LOW[] = {0xF7, 0xF8, 0xF9, 0xFA, 0xFB, 0xFC, 0xFD, 0xFE, 0xFF, 0x00, 0x01, 0x02, 0x03, 0x04};
+        int hi; size_t li;
+        for (hi = 0; hi < 2; ++hi) for (li = 0; li < sizeof(LOW); ++li) {
+            alt = base; memset(alt.counter, hi ? 0xFF : 0x00, 16);
+            if (p.clen >= 1) alt.counter[p.clen - 1] = LOW[li];
+            run_marked(&p, &alt);
+        }
+    }
     {   /* carry chains */
         int k;
         for (k = 0; k <= 16; k += (tier_thorough() ? 1 : 4)) { alt = base; memset(alt.counter, 0, 16); if (k) memset(alt.counter + 16 - k, 0xFF, (size_t)k); run_marked(&p, &alt); }
